@@ -80,6 +80,7 @@ type Contract struct {
 	Line      int
 	NoFrame   bool
 	Sweep     bool
+	TailDup   bool // execute a final return separately per branch of the preceding if
 	Preserves []*Clause // objects (by pointer parameter) the function must never store into
 }
 
@@ -192,7 +193,7 @@ func LoadProgram(dir string, patterns []string) (*Program, error) {
 var clauseKeywords = map[string]bool{
 	"func": true, "extern": true, "requires": true, "ensures": true, "modifies": true, "decreases": true,
 	"invariant": true, "loop": true, "at": true, "lemma": true, "bounded": true, "pure": true, "inline": true,
-	"heapclass": true, "step": true, "preserves": true, "trusted": true, "noframe": true, "sweep": true, "params": true, "results": true,
+	"heapclass": true, "step": true, "preserves": true, "taildup": true, "trusted": true, "noframe": true, "sweep": true, "params": true, "results": true,
 	"import": true,
 }
 
@@ -446,6 +447,10 @@ func (p *Program) readContracts(pk *packages.Package, f *ast.File, filename stri
 		case "trusted":
 			if cur != nil {
 				cur.Trusted = true
+			}
+		case "taildup":
+			if cur != nil {
+				cur.TailDup = true
 			}
 		case "noframe":
 			if cur != nil {
